@@ -14,7 +14,7 @@ open Kopf Kopf.J
      ∀ p k, validPrefix p → IdOk k → validQualified (v2Key p sfx k) ∧ validQualified (v1Key p sfx k).
    That statement is FALSE of the code (`edge_witness`, `edge_witness_front`: F6; formerly also
    F6c — repaired in kopf e916847, see `v1_long_prefix_regression`). What holds is the statement under the
-   exact guard `EdgeAlnum (safeKey k)` (v2 and v1), hence `_partial`. `GoodSfx` is a fact about the real digest suffix
+   exact guard `EdgeOk k` (resp. `EdgeOkV1 p k`) — exact: `valid_name_v2_exact` — hence `_partial`. `GoodSfx` is a fact about the real digest suffix
    (7 characters `-xxxxxx`, last one of `AQgw`), checked by the oracle on every hashed name. -/
 
 /-- v2 names (the ones written and read first): under a valid prefix, for an id over the
@@ -22,7 +22,7 @@ open Kopf Kopf.J
     when the id is longer than 63: `prefix/name` with a valid name part of at most 63 characters,
     and at most 253 in total when the prefix has at most 189. -/
 theorem valid_name_v2_partial (p : Str) (sfx : Str → Str) (k : Str) (hp : validPrefix p = true) (hk : IdOk k)
-    (he : EdgeAlnum (safeKey k)) (hs : k.length > 63 → GoodSfx (sfx k)) :
+    (he : EdgeOk k) (hs : k.length > 63 → GoodSfx (sfx k)) :
     ∃ n, v2Key p sfx k = p ++ '/' :: n ∧ validNamePart n = true ∧ n.length ≤ 63 ∧
       validQualified (v2Key p sfx k) = true ∧ (p.length ≤ 189 → (v2Key p sfx k).length ≤ 253) := by
   have hn := validName_v2 sfx k hk he hs
@@ -32,13 +32,29 @@ theorem valid_name_v2_partial (p : Str) (sfx : Str → Str) (k : Str) (hp : vali
   · rw [e]; exact validQualified_intro hp hn
   · intro hl; rw [e]; simp; have := (validNamePart_length hn).2; omega
 
+/-- … and the guard is exact: under a valid prefix (and the facts about the digest suffix) the V2 key
+    is a valid Kubernetes annotation key **if and only if** `EdgeOk k`. F6 is precisely `¬ EdgeOk k`. -/
+theorem valid_name_v2_exact (p : Str) (sfx : Str → Str) (k : Str) (hp : validPrefix p = true) (hk : IdOk k)
+    (hs : k.length > 63 → GoodSfx (sfx k)) :
+    validQualified (v2Key p sfx k) = true ↔ EdgeOk k := by
+  constructor
+  · intro h
+    have hpn := validPrefix_ne_nil hp
+    have e : v2Key p sfx k = p ++ '/' :: v2Name sfx k := by rw [v2Key_eq, pre_of_ne hpn]; simp
+    rw [e, validQualified_split (validPrefix_noslash hp)] at h
+    simp only [Bool.and_eq_true] at h
+    exact edgeOk_of_valid_v2 sfx k hs h.2
+  · intro he
+    obtain ⟨_, _, _, _, hq, _⟩ := valid_name_v2_partial p sfx k hp hk he hs
+    exact hq
+
 /-- v1 names (written next to the v2 names while `v1=True` *and there is room*, `v1Fits`): whenever
     a V1 key is generated it is a valid name of at most 63 characters in total — under the same
-    `EdgeAlnum` guard (F6) only. The former guard "prefix + `/` + suffix leave room" (finding F6c) is
+    `EdgeOkV1` guard (F6) only. The former guard "prefix + `/` + suffix leave room" (finding F6c) is
     gone with kopf e916847: `make_keys` checks it itself. `(sfx _).length ≤ (sfx []).length` says the
     digest suffix has one length (the real one: always 7), which is what `v1_fits` measures. -/
 theorem valid_name_v1_partial (p : Str) (sfx : Str → Str) (k : Str) (hp : validPrefix p = true) (hk : IdOk k)
-    (he : EdgeAlnum (safeKey k)) (hfit : v1Fits p sfx = true)
+    (he : EdgeOkV1 p k) (hfit : v1Fits p sfx = true)
     (hs : 63 < (pre p).length + k.length →
       GoodSfx (sfx (safeKey k)) ∧ (sfx (safeKey k)).length ≤ (sfx []).length) :
     ∃ n, v1Key p sfx k = p ++ '/' :: n ∧ validNamePart n = true ∧ (v1Key p sfx k).length ≤ 63 ∧
@@ -55,9 +71,9 @@ theorem valid_name_v1_partial (p : Str) (sfx : Str → Str) (k : Str) (hp : vali
   · rw [e]; exact validQualified_intro hp hn
 
 /-- **every name `make_keys` generates** (for any `v1` flag, any prefix length) is a valid
-    annotation key, under the `EdgeAlnum` guard and the facts about the digest suffix -/
+    annotation key, under the `EdgeOk` guard (= F6) and the facts about the digest suffix -/
 theorem valid_names_partial (p : Str) (v1 : Bool) (sfx : Str → Str) (k : Str) (hp : validPrefix p = true)
-    (hk : IdOk k) (he : EdgeAlnum (safeKey k)) (hs2 : k.length > 63 → GoodSfx (sfx k))
+    (hk : IdOk k) (he : EdgeOk k) (hs2 : k.length > 63 → GoodSfx (sfx k))
     (hs1 : 63 < (pre p).length + k.length →
       GoodSfx (sfx (safeKey k)) ∧ (sfx (safeKey k)).length ≤ (sfx []).length) :
     ∀ n ∈ makeKeys p v1 sfx k, validQualified n = true ∧ ∃ name, n = p ++ '/' :: name ∧ validNamePart name = true := by
@@ -65,21 +81,19 @@ theorem valid_names_partial (p : Str) (v1 : Bool) (sfx : Str → Str) (k : Str) 
   rcases makeKeys_subset p v1 sfx k n hn with rfl | ⟨rfl, _, hfit⟩
   · obtain ⟨name, e, hv, _, hq, _⟩ := valid_name_v2_partial p sfx k hp hk he hs2
     exact ⟨hq, name, e, hv⟩
-  · obtain ⟨name, e, hv, _, hq⟩ := valid_name_v1_partial p sfx k hp hk he hfit hs1
+  · obtain ⟨name, e, hv, _, hq⟩ := valid_name_v1_partial p sfx k hp hk ⟨he.1, fun h => he.2 (by omega)⟩ hfit hs1
     exact ⟨hq, name, e, hv⟩
 
 /-- the marking keeps the name valid: a marked id ends in `S`, only its first character matters -/
 theorem valid_name_marked (k : Str) (hk : IdOk k) (he : headAlnum (safeKey k) = true) :
-    IdOk (markKey true k) ∧ EdgeAlnum (safeKey (markKey true k)) := by
-  refine ⟨⟨by simp only [markKey, if_true]; intro e; have := congrArg List.length e; simp [ofDRS] at this, ?_⟩, ?_, ?_⟩
+    IdOk (markKey true k) ∧ EdgeOk (markKey true k) := by
+  refine ⟨⟨by simp only [markKey, if_true]; intro e; have := congrArg List.length e; simp [ofDRS] at this, ?_⟩, ?_, fun _ => ?_⟩
   · simp only [markKey, if_true, List.all_append, Bool.and_eq_true]
     exact ⟨hk.2, by decide⟩
   · simp only [markKey, if_true, safeKey, List.map_append]
     exact headAlnum_append he _
   · simp only [markKey, if_true, safeKey, List.map_append]
     rw [lastAlnum_append _ (by decide)]; decide
-
-/-! ## Distinct names -/
 
 /- The property says: "names are distinct for long ids that share a prefix", i.e.
      ∀ k ≠ k' (both longer than 63), v2Key p sfx k ≠ v2Key p sfx k'.
@@ -119,7 +133,7 @@ is the mixed case, where one id may spell the hashed name of the other (`forged_
     disturb each other — a store or a purge of `k` leaves what `k'` reads unchanged (`k'` must
     not spell the `kopf-managed` marker). Holds for `v1=False`, for every prefix without room for
     V1 keys (55+ characters: the repaired F6f), and for ids that are their own V1 names. -/
-theorem isolation_ids_short (env : Env) (c : AnnCfg) (hp : c.pfx ≠ [])
+theorem isolation_ids_short_partial (env : Env) (c : AnnCfg) (hp : c.pfx ≠ [])
     (body patch0 ps pp : J) (k k' : Str) (r : Rec) (hw : wf patch0 = true) (hs : MarkStable patch0)
     (hone : c.v1 = false ∨ v1Fits c.pfx env.sfx = false ∨
       ((pre c.pfx).length + (markKey (isDRS body) k).length ≤ 63 ∧
@@ -145,7 +159,7 @@ theorem isolation_ids_short (env : Env) (c : AnnCfg) (hp : c.pfx ≠ [])
 
 /-- **one name each, ids longer than 63 characters** (sharing any prefix), as long as their
     digests differ (`collision_witness`, F6b, is the other case) -/
-theorem isolation_ids_long (env : Env) (c : AnnCfg) (hp : c.pfx ≠ [])
+theorem isolation_ids_long_partial (env : Env) (c : AnnCfg) (hp : c.pfx ≠ [])
     (body patch0 ps pp : J) (k k' : Str) (r : Rec) (hw : wf patch0 = true) (hs : MarkStable patch0)
     (hone : c.v1 = false ∨ v1Fits c.pfx env.sfx = false)
     (hk : (markKey (isDRS body) k).length > 63) (hk' : (markKey (isDRS body) k').length > 63)
@@ -169,8 +183,9 @@ theorem isolation_ids_long (env : Env) (c : AnnCfg) (hp : c.pfx ≠ [])
 /-- **two names each (`v1=True` with room), both ids too long to be their own V1 names**: with
     different V2 names (safe forms differ, resp. digests differ) and different, equally long digests
     of the safe forms, the two handlers share no annotation at all — for every prefix. The V1 name
-    of one can no longer be the V2 name of the other (F6f): their lengths differ. -/
-theorem isolation_ids_v1_hashed (env : Env) (c : AnnCfg) (hp : c.pfx ≠ [])
+    of one can no longer be the V2 name of the other (F6f): their lengths differ. `hm` / `h51` keep
+    `k'` off the `kopf-managed` marker (F6g, `marker_witness`): a 12-character V1 name needs `|prefix/| = 51`. -/
+theorem isolation_ids_v1_hashed_partial (env : Env) (c : AnnCfg) (hp : c.pfx ≠ [])
     (body patch0 ps pp : J) (k k' : Str) (r : Rec) (hw : wf patch0 = true) (hs : MarkStable patch0)
     (hb : 63 < (pre c.pfx).length + (markKey (isDRS body) k).length)
     (hb' : 63 < (pre c.pfx).length + (markKey (isDRS body) k').length)
@@ -182,7 +197,8 @@ theorem isolation_ids_v1_hashed (env : Env) (c : AnnCfg) (hp : c.pfx ≠ [])
        (env.sfx (markKey (isDRS body) k)).length = (env.sfx (markKey (isDRS body) k')).length ∧
        (env.sfx (markKey (isDRS body) k)).length ≤ 63 ∧
        env.sfx (markKey (isDRS body) k) ≠ env.sfx (markKey (isDRS body) k')))
-    (hmark : ∀ n' ∈ annNames env c.pfx c.v1 body k', n' ≠ markerName c.pfx)
+    (hm : (markKey (isDRS body) k').length ≤ 63 → safeKey (markKey (isDRS body) k') ≠ "kopf-managed".toList)
+    (h51 : (pre c.pfx).length ≠ 51)
     (hstore : annStore env c body patch0 k r = .ok ps) (hpurge : annPurge env c body patch0 k = .ok pp) :
     annFetch env c (mergePatch body ps) k' = annFetch env c (mergePatch body patch0) k' ∧
     annFetch env c (mergePatch body pp) k' = annFetch env c (mergePatch body patch0) k' := by
@@ -192,15 +208,25 @@ theorem isolation_ids_v1_hashed (env : Env) (c : AnnCfg) (hp : c.pfx ≠ [])
         (distinct_short_partial c.pfx env.sfx _ _ h1 h2 (safeKey_markKey_ne h3)) c.v1
     · exact names_disjoint_hashed hp hb hb' hroom hsl hsne (fun _ => h4) (fun _ => by omega)
         (distinct_partial c.pfx env.sfx _ _ h1 h2 h3 h4 h5) c.v1
+  have hroom' : (pre c.pfx).length + (env.sfx (safeKey (markKey (isDRS body) k'))).length < 63 := by omega
+  have hmark : ∀ n' ∈ annNames env c.pfx c.v1 body k', n' ≠ markerName c.pfx := by
+    intro n' hn'
+    rcases makeKeys_subset c.pfx c.v1 env.sfx _ n' hn' with rfl | ⟨rfl, _, _⟩
+    · by_cases h63 : (markKey (isDRS body) k').length ≤ 63
+      · exact v2Key_ne_marker_short hp env.sfx h63 (hm h63)
+      · rcases hv2 with ⟨_, h2, _⟩ | ⟨_, h2, h3, h4, _⟩
+        · exact absurd h2 h63
+        · exact v2Key_ne_marker_long hp env.sfx h2 (by omega)
+    · exact v1Key_ne_marker_hashed hp hb' hroom' h51
   exact ⟨isolation_other_handler env c body patch0 ps k k' r hw hs hstore hdisj hmark,
     isolation_other_handler_purge env c body patch0 pp k k' hw hs hpurge hdisj⟩
 
 /-! ## Each hypothesis is necessary: witnesses (the open findings F6, F6b, F6d, F6e) -/
 
-/-- **F6** `EdgeAlnum` is necessary: the id `fn/` (in the alphabet, any hash) gives
+/-- **F6** `EdgeOk` is necessary: the id `fn/` (in the alphabet, any hash) gives
     `kopf.zalando.org/fn.`, which is not a valid annotation key. -/
 theorem edge_witness (sfx : Str → Str) :
-    validPrefix kz = true ∧ IdOk "fn/".toList ∧ ¬ EdgeAlnum (safeKey "fn/".toList) ∧
+    validPrefix kz = true ∧ IdOk "fn/".toList ∧ ¬ EdgeOk "fn/".toList ∧
     v2Key kz sfx "fn/".toList = "kopf.zalando.org/fn.".toList ∧
     validQualified (v2Key kz sfx "fn/".toList) = false := by
   have e : v2Key kz sfx "fn/".toList = "kopf.zalando.org/fn.".toList := by
@@ -217,9 +243,11 @@ theorem edge_witness_front (sfx : Str → Str) :
   refine ⟨by decide, ?_⟩
   rw [e]; decide
 
-/-- `GoodSfx` is necessary: with a suffix ending in `.` a long, otherwise fine id gets an invalid name. -/
+/-- `GoodSfx` is necessary — a statement about a HYPOTHETICAL digest suffix (the real one always is `GoodSfx`;
+    this is not a behaviour of the code and is not replayed on it): with a suffix ending in `.` a long,
+    otherwise fine id gets an invalid name. -/
 theorem sfx_witness :
-    IdOk (xs 64) ∧ EdgeAlnum (safeKey (xs 64)) ∧ ¬ GoodSfx (constSfx "-ab." (xs 64)) ∧
+    IdOk (xs 64) ∧ EdgeOk (xs 64) ∧ ¬ GoodSfx (constSfx "-ab." (xs 64)) ∧
     validQualified (v2Key kz (constSfx "-ab.") (xs 64)) = false := by
   decide
 
@@ -228,16 +256,10 @@ theorem sfx_witness :
 `make_v1_key` itself is unchanged: called with a prefix of 55+ characters its cut `63 - |prefix/| - 7`
 is still zero or negative (a Python slice from the end). It is no longer *called* then. -/
 
-/-- no V1 key without room: whenever prefix + `/` + suffix fill the 63 characters, `make_keys`
-    yields the V2 name only — for every id, every hash, whatever the `v1` flag -/
-theorem no_v1_key_without_room (p : Str) (v1 : Bool) (sfx : Str → Str) (k : Str)
-    (h : 63 ≤ (pre p).length + (sfx []).length) : makeKeys p v1 sfx k = [v2Key p sfx k] :=
-  makeKeys_single (Or.inr (Or.inl (by simp [v1Fits]; omega)))
-
 /-- **F6c fixed**: the former witnesses. With the valid 55- and 60-character prefixes (and the real
     7-character suffix) there is no room, a 54-character prefix still has room; the id that used to
     get the V1 name `-AAAAAQ` now gets one, valid, name. -/
-theorem v1_long_prefix_regression :
+example :
     validPrefix p55 = true ∧ v1Fits p55 (constSfx "-AAAAAQ") = false ∧
     validPrefix p60 = true ∧ v1Fits p60 (constSfx "-AAAAAQ") = false ∧
     v1Fits (List.replicate 54 'a') (constSfx "-AAAAAQ") = true ∧
@@ -250,7 +272,7 @@ theorem v1_long_prefix_regression :
 set_option maxRecDepth 8192 in
 /-- **F6f fixed**: the former witness. With a 63-character prefix the 64-character id `a/xx…` and its
     safe form `a.xx…` (a distinct id, with another digest) now have disjoint names. -/
-theorem v1_negative_cut_regression :
+example :
     let sfx : Str → Str := fun s => if s = safeKey ("a/".toList ++ xs 62) then "-AAAAAQ".toList else "-BBBBBQ".toList
     makeKeys (List.replicate 63 'a') true sfx ("a/".toList ++ xs 62)
       = [v2Key (List.replicate 63 'a') sfx ("a/".toList ++ xs 62)] ∧
@@ -305,12 +327,83 @@ theorem forged_v1_witness :
     makeKeys kz true (constSfx "-AAAAAQ") (xs 39 ++ "-AAAAAQ".toList) = [v1Key kz (constSfx "-AAAAAQ") (xs 50)] := by
   decide
 
+/-! ### The storages' own names (finding F6g) and ids outside the alphabet (F6i) -/
+
+/-- **F6g (a)** `hm` of the id-level isolation theorems is necessary: under a custom prefix, storing
+    the record of `fn` writes the marker `<prefix>/kopf-managed: yes`; a handler with the id
+    `kopf-managed`, which read nothing before, now fails to parse it (`json.loads('yes')`). -/
+theorem marker_witness :
+    let c : AnnCfg := ⟨"my-op.example.com".toList, false, false, "touch-dummy".toList⟩
+    (match annFetch env0 c (obj []) "kopf-managed".toList with | .ok none => true | _ => false) = true ∧
+    (match annStore env0 c (obj []) (obj []) "fn".toList r0 with
+     | .ok p' => (match annFetch env0 c (mergePatch (obj []) p') "kopf-managed".toList with
+                  | .error .value => true | _ => false)
+     | _ => false) = true := by
+  decide
+
+/-- **F6g (b)** a handler with the id of the touch key: the touch overwrites its record. -/
+theorem reserved_touch_witness :
+    let c : AnnCfg := ⟨kz, true, false, "touch-dummy".toList⟩
+    (match annStore env0 c (obj []) (obj []) "touch-dummy".toList r0 with
+     | .ok p1 =>
+       (match annFetch env0 c (mergePatch (obj []) p1) "touch-dummy".toList with | .ok (some _) => true | _ => false) &&
+       (match annTouch env0 c (mergePatch (obj []) p1) (obj []) (str "2020-12-31T23:59:59") with
+        | .ok p2 => (match annFetch env0 c (mergePatch (mergePatch (obj []) p1) p2) "touch-dummy".toList with
+                     | .error .value => true | _ => false)
+        | _ => false)
+     | _ => false) = true := by
+  decide
+
+/-- **F6g (c)** a handler with the id of the diff-base key (same prefix): its record is read as the
+    last-handled state. -/
+theorem reserved_diffbase_witness :
+    let c : AnnCfg := ⟨kz, true, false, "touch-dummy".toList⟩
+    let d : DLeaf := .ann ⟨kz, "last-handled-configuration".toList, true⟩
+    let essence : J := obj [("spec", obj [("n", num 2)])]
+    (match DLeaf.store env0 (obj []) (obj []) essence d with
+     | .ok p1 =>
+       (match DLeaf.fetch env0 (mergePatch (obj []) p1) d with | .ok (some e) => e == essence | _ => false) &&
+       (match annStore env0 c (mergePatch (obj []) p1) (obj []) "last-handled-configuration".toList r0 with
+        | .ok p2 => (match DLeaf.fetch env0 (mergePatch (mergePatch (obj []) p1) p2) d with
+                     | .ok (some e) => e == obj [("retries", num 1)] | _ => false)
+        | _ => false)
+     | _ => false) = true := by
+  decide
+
+/-- **F6d beyond 63 characters**: the V1 key depends on the id only through its safe form, so two
+    ids of ANY length with equal safe forms share their V1 name (their V2 names differ as soon as
+    the digests of the ids do) … -/
+theorem safe_form_long_v1_witness (p : Str) (sfx : Str → Str) (k k' : Str) (hs : safeKey k = safeKey k') :
+    v1Key p sfx k = v1Key p sfx k' := by
+  simp only [v1Key, hs]
+
+set_option maxRecDepth 8192 in
+/-- … e.g. the 70-character ids `a/xx…` and `a.xx…` under the default prefix with `v1=True`: two
+    names each, different V2 names, the same V1 name — a handler that never ran reads the other's record. -/
+example : let sfx : Str → Str := fun s => if s = "a/".toList ++ xs 68 then "-AAAAAQ".toList else "-BBBBBQ".toList
+    v2Key kz sfx ("a/".toList ++ xs 68) ≠ v2Key kz sfx ("a.".toList ++ xs 68) ∧
+    makeKeys kz true sfx ("a/".toList ++ xs 68) = [v2Key kz sfx ("a/".toList ++ xs 68), v1Key kz sfx ("a/".toList ++ xs 68)] ∧
+    makeKeys kz true sfx ("a.".toList ++ xs 68) = [v2Key kz sfx ("a.".toList ++ xs 68), v1Key kz sfx ("a/".toList ++ xs 68)] := by
+  decide
+
+/-- **F6i** `IdOk` (the property's alphabet) is necessary: kopf's own id of a lambda contains `:`,
+    which the safe key keeps; the name is invalid for every hash. -/
+theorem lambda_id_witness (sfx : Str → Str) :
+    ¬ IdOk "lambda:/a.py:1".toList ∧ EdgeOk "lambda:/a.py:1".toList ∧
+    validQualified (v2Key kz sfx "lambda:/a.py:1".toList) = false := by
+  have e : v2Key kz sfx "lambda:/a.py:1".toList = "kopf.zalando.org/lambda:.a.py:1".toList := by
+    simp [v2Key]; decide
+  refine ⟨by decide, by decide, ?_⟩
+  rw [e]; decide
+
 /-! ## Non-vacuity (names) -/
 
 example : validPrefix kz = true ∧ validPrefix c0.pfx = true := by decide
-example : IdOk k0 ∧ EdgeAlnum (safeKey k0) ∧ GoodSfx (env0.sfx k0) := by decide
+example : IdOk k0 ∧ EdgeOk k0 ∧ GoodSfx (env0.sfx k0) := by decide
+/-- a hashed id may end in anything: `EdgeOk` holds although the safe form ends in `.` -/
+example : EdgeOk (xs 63 ++ ['.']) ∧ lastAlnum (safeKey (xs 63 ++ ['.'])) = false := by decide
 example : IdOk "Outer.<locals>.fn/sub/spec.field".toList ∧
-    EdgeAlnum (safeKey "Outer.<locals>.fn/sub/spec.field".toList) := by decide
+    EdgeOk "Outer.<locals>.fn/sub/spec.field".toList := by decide
 /-- `valid_name_v1_partial`: there is room under the default prefix, and the suffix has one length -/
 example : v1Fits kz env0.sfx = true ∧ (env0.sfx (safeKey k0)).length ≤ (env0.sfx []).length := by decide
 /-- `distinct_partial`: two long ids sharing a 64-character prefix, different (equal-length) suffixes -/
@@ -319,7 +412,7 @@ example : let sfx : Str → Str := fun k => if k.length = 64 then "-AAAAAQ".toLi
   decide
 
 
-/-- `isolation_ids_short` (first alternative of `hone`): `v1 = False`, a field handler and a sub-handler with different safe forms -/
+/-- `isolation_ids_short_partial` (first alternative of `hone`): `v1 = False`, a field handler and a sub-handler with different safe forms -/
 def c1 : AnnCfg := ⟨kz, false, false, "touch-dummy".toList⟩
 example : (markKey (isDRS body0) "fn/spec.a".toList).length ≤ 63 ∧ (markKey (isDRS body0) "fn/sub_b".toList).length ≤ 63 ∧
     safeKey "fn/spec.a".toList ≠ safeKey "fn/sub_b".toList ∧
@@ -327,7 +420,7 @@ example : (markKey (isDRS body0) "fn/spec.a".toList).length ≤ 63 ∧ (markKey 
 example : (match annStore env0 c1 body0 (obj []) "fn/spec.a".toList r0, annPurge env0 c1 body0 (obj []) "fn/spec.a".toList with
     | .ok _, .ok _ => true | _, _ => false) = true := by decide
 
-/-- `isolation_ids_v1_hashed`: default prefix, `v1=True`, two 50-character ids with different safe
+/-- `isolation_ids_v1_hashed_partial`: default prefix, `v1=True`, two 50-character ids with different safe
     forms and (for a hash that tells them apart) different digests -/
 example : let sfx : Str → Str := fun s => if s = xs 50 then "-AAAAAQ".toList else "-BBBBBQ".toList
     63 < (pre kz).length + (xs 50).length ∧ 63 < (pre kz).length + ("y".toList ++ xs 49).length ∧
